@@ -156,6 +156,17 @@ func (g *c07gen) stmt(depth int, inLoop map[string]bool) []gen.Node {
 			els[i] = num(10*g.uniq() + i)
 		}
 		f.Seq = &gen.EArr{Els: els}
+		// the loop variables are bound the same way whatever the sequence is written as
+		if base := 10 * g.uniq(); ln > 0 {
+			switch r.Intn(6) {
+			case 0: // a range written directly in the tag
+				f.Seq = &gen.EBin{Op: "..", L: num(base), R: num(base + ln - 1)}
+			case 1:
+				f.Seq = &gen.EGroup{X: &gen.EBin{Op: "..", L: num(base), R: num(base + ln - 1)}}
+			case 2: // a hash with one entry
+				f.Seq = &gen.EHash{Keys: []gen.Expr{str("hk" + strconv.Itoa(base))}, Vals: []gen.Expr{num(base)}}
+			}
+		}
 		savedDef, savedShadow, savedML := copySet(g.defined), copySet(g.shadow), append([]string{}, g.mlocals...)
 		if !g.inMacro {
 			if g.defined[f.Val] || (f.Key != "" && g.defined[f.Key]) {
